@@ -10,7 +10,8 @@ CONSTANTS
   BugH9 = TRUE
   BugH10 = TRUE
   BugMetaStale = TRUE
+  BugH11 = FALSE
   KRounds = 12
-INVARIANTS TraceNotStuck C14Rejects C14ReadsRO C14ReadsDEGRO
+INVARIANTS TraceNotStuck C14RejectsT C14ReadsROT C14ReadsDEGROT
 PROPERTIES C14Unchanged C43Keeps
 CHECK_DEADLOCK FALSE
